@@ -63,4 +63,22 @@ PROPS = {
                       "recent) and validated by the differential run; real concurrency between sessions is exercised, not proved.",
         "assumptions": ["hashicorp LRU contract", "per-session state is created in ServeNostr / ServeNostrStart (checked by concurrent sessions in the run)"],
     },
+    "C19": {
+        "lean_modules": ["MocProps.C19"],
+        "theorem_files": ["MocProps/C19.lean"],
+        "gen_groups": ["Prom"],
+        "n_quick": 1500, "n_thorough": 15000, "thorough_seeds": 3,
+        "rule": "1-3 sessions per case on a real prometheus.Registry, 2-12 messages each (REQ/CLOSE of 3 ids incl. repeats, server CLOSED, EVENT of several "
+                "kinds, COUNT, AUTH, all server message types), either interleaved step by step with a Gather() after every step, or run concurrently with "
+                "Gather() when all are idle and after all ended; every message is followed by a barrier round trip so each gather point is quiescent; "
+                "non-trivial = every case; distinct = distinct output line",
+        "level_text": "Full for the bookkeeping: for EVERY history of any number of sessions (messages between their Start and End, fresh session ids) the connection "
+                      "gauge equals the number of live sessions, the subscription gauge equals the number of subscriptions opened by REQ and not ended by CLOSE, "
+                      "CLOSED or session end, and each live session's set is exactly that set (gauges_equal_reality, by induction with an invariant); per-type and "
+                      "per-kind counters equal the counts of crossed messages for every history (recv_counters, sent_counters, kind_counters); label tables are "
+                      "regenerated from the switch cases. Transparency and the registry arithmetic are runtime-validated on every message of the run.",
+        "level_note": "Trusted: Lean kernel + standard axioms; go2lean; harness/driver; prometheus client arithmetic; the guarded Inc/Dec/Sub statements are pinned by "
+                      "prom_source_pinned against regenerated source text; concurrency of sessions is exercised (mutex discipline), not proved.",
+        "assumptions": ["session ids (UUIDs) are never reused", "Start/End hooks bracket a session's messages (NewSimpleMiddleware)"],
+    },
 }
